@@ -74,6 +74,30 @@ func H_lex_spans() {
 	checkSpans(toks, src)
 }
 
+// window in the MIDDLE: opener ‖ window ‖ closer + following tokens, so that a line/span shift
+// caused by the window is visible on the tokens after it.
+var sandwiches = [][2]string{
+	{"$a = \"", "\";\n$b = 1;\n$c"},
+	{"$a = '", "';\n$b = 1;\n$c"},
+	{"$a = `", "`;\n$b = 1;\n$c"},
+	{"$a = <<<A\n", "\nA;\n$b = 1;\n$c"},
+	{"$a = <<<'A'\n", "\nA;\n$b = 1;\n$c"},
+	{"/*", "*/\n$b = 1;\n$c"},
+	{"//", "\n$b = 1;\n$c"},
+	{"#", "\n$b = 1;\n$c"},
+	{"$a = 1;", "\n$b = 1;\n$c"},
+	{"$a = \"x{$", "}\";\n$b = 1;\n$c"},
+}
+
+func H_lex_spans_mid() {
+	n := symx.Param("n", 1)
+	k := symx.Choose("ctx", len(sandwiches))
+	src := sandwiches[k][0] + symx.String("w", n) + sandwiches[k][1]
+	toks := lx.Tokenize(src)
+	symx.Reach("lexed")
+	checkSpans(toks, src)
+}
+
 // H_lex_template: <?php template mode.
 func H_lex_template() {
 	src, _, _ := source()
@@ -102,6 +126,7 @@ func parseAndRun(src string) {
 	// an accepted program may legitimately loop (e.g. its increment was deleted):
 	// the run gets a soft budget; only a Go panic is a violation here
 	symx.SoftFuel(300000)
+	symx.SoftOpaque(true)
 	// recorded finding family: a missing operand/clause is accepted by the parser and the
 	// evaluator then calls a method on the nil child (one known-findings line per call site)
 	symx.KnownPanic("C01-nil-operand@", "nil@", true)
@@ -147,6 +172,14 @@ var snippets = []string{
 	"$a = <<<E\nline $x\nE;\n",
 	"enum S { case A; case B; }",
 	"$a instanceof A; clone $a; unset($a); isset($a); empty($a);",
+	"$m = [\"a\" => 1, \"b\" => 2, \"c\" => [3, 4]]; f([\"k\" => $a, \"j\" => 2]);",
+	"$r = f(g(1, [2, 3]), h([\"x\" => 1, \"y\" => 2])[0]);",
+	"$o->a()->b(1, 2)->c; $p = $q[1][2]->r[\"s\"];",
+	"$z = {\"a\": 1, \"b\": [1, 2], \"c\": {\"d\": 2}};",
+	"$s = \"v=$x w={$y->z} u={$a[1]}\" . \"t\";",
+	"array(1, 2, \"k\" => 3); list(\"a\" => $p, \"b\" => $q) = $r;",
+	"if ($a) { $b = 1; } elseif ($c) { $b = 2; } else { $b = 3; } while (true) { break; }",
+	"$f = function($x) use (&$y) { return $x + $y; }; $g = fn($a, $b) => [$a => $b];",
 }
 
 func H_snip() {
